@@ -6,9 +6,32 @@
  */
 #include "rdsquashfs.h"
 
-static int print_name(const sqfs_tree_node_t *n, bool dont_escape)
+/*
+  Print a string the way the gensquashfs file format expects it: if it
+  contains white space, a quote or a backslash, put it in double quotes and
+  escape quotes and backslashes.
+ */
+static void print_escaped(const char *str)
 {
-	char *start, *ptr, *name;
+	if (strpbrk(str, " \t\"\\") == NULL && str[0] != '\0') {
+		fputs(str, stdout);
+		return;
+	}
+
+	fputc('"', stdout);
+
+	for (; *str != '\0'; ++str) {
+		if (*str == '"' || *str == '\\')
+			fputc('\\', stdout);
+		fputc(*str, stdout);
+	}
+
+	fputc('"', stdout);
+}
+
+static int print_name(const sqfs_tree_node_t *n, const char *prefix)
+{
+	char *name, *full;
 	int ret;
 
 	ret = sqfs_tree_node_get_path(n, &name);
@@ -23,30 +46,19 @@ static int print_name(const sqfs_tree_node_t *n, bool dont_escape)
 		return -1;
 	}
 
-	if (dont_escape || (strchr(name, ' ') == NULL &&
-			    strchr(name, '"') == NULL)) {
-		fputs(name, stdout);
+	if (prefix == NULL) {
+		print_escaped(name);
 	} else {
-		fputc('"', stdout);
-
-		ptr = strchr(name, '"');
-
-		if (ptr != NULL) {
-			start = name;
-
-			do {
-				fwrite(start, 1, ptr - start, stdout);
-				fputs("\\\"", stdout);
-				start = ptr + 1;
-				ptr = strchr(start, '"');
-			} while (ptr != NULL);
-
-			fputs(start, stdout);
-		} else {
-			fputs(name, stdout);
+		full = alloc_array(1, strlen(prefix) + strlen(name) + 2);
+		if (full == NULL) {
+			perror("printing file location");
+			sqfs_free(name);
+			return -1;
 		}
 
-		fputc('"', stdout);
+		sprintf(full, "%s/%s", prefix, name);
+		print_escaped(full);
+		free(full);
 	}
 
 	sqfs_free(name);
@@ -60,14 +72,21 @@ static void print_perm(const sqfs_tree_node_t *n)
 }
 
 static int print_simple(const char *type, const sqfs_tree_node_t *n,
-			const char *extra)
+			const char *extra, bool escape_extra)
 {
 	printf("%s ", type);
-	if (print_name(n, false))
+	if (print_name(n, NULL))
 		return -1;
 	print_perm(n);
-	if (extra != NULL)
-		printf(" %s", extra);
+	if (extra != NULL) {
+		fputc(' ', stdout);
+
+		if (escape_extra) {
+			print_escaped(extra);
+		} else {
+			fputs(extra, stdout);
+		}
+	}
 	fputc('\n', stdout);
 	return 0;
 }
@@ -84,22 +103,22 @@ int describe_tree(const sqfs_tree_node_t *root, const char *unpack_root)
 
 	switch (root->inode->base.mode & S_IFMT) {
 	case S_IFSOCK:
-		return print_simple("sock", root, NULL);
+		return print_simple("sock", root, NULL, false);
 	case S_IFLNK:
 		return print_simple("slink", root,
-				    (const char *)root->inode->extra);
+				    (const char *)root->inode->extra, true);
 	case S_IFIFO:
-		return print_simple("pipe", root, NULL);
+		return print_simple("pipe", root, NULL, false);
 	case S_IFREG:
 		if (unpack_root == NULL)
-			return print_simple("file", root, NULL);
+			return print_simple("file", root, NULL, false);
 
 		fputs("file ", stdout);
-		if (print_name(root, false))
+		if (print_name(root, NULL))
 			return -1;
 		print_perm(root);
-		printf(" %s/", unpack_root);
-		if (print_name(root, true))
+		fputc(' ', stdout);
+		if (print_name(root, unpack_root))
 			return -1;
 		fputc('\n', stdout);
 		break;
@@ -118,11 +137,11 @@ int describe_tree(const sqfs_tree_node_t *root, const char *unpack_root)
 		sprintf(buffer, "%c %u %u",
 			S_ISCHR(root->inode->base.mode) ? 'c' : 'b',
 			major(devno), minor(devno));
-		return print_simple("nod", root, buffer);
+		return print_simple("nod", root, buffer, false);
 	}
 	case S_IFDIR:
 		if (root->name[0] != '\0') {
-			if (print_simple("dir", root, NULL))
+			if (print_simple("dir", root, NULL, false))
 				return -1;
 		}
 
